@@ -19,6 +19,7 @@ if subprocess.run(['git', '-C', wt, 'apply', '--check', patch], capture_output=T
     # the patch touches lines a later repair changed: evaluate it on the commit it was written against
     base = os.environ.get('VERIF_MUTANT_BASE', 'b751187')
     print('NOTE patch does not apply to HEAD, evaluated on', base)
+    os.environ['VERIF_NO_REGRESS'] = '1'
     subprocess.run(['git', '-C', wt, 'checkout', '-q', '--detach', base], check=True)
 subprocess.run(['git', '-C', wt, 'apply', patch], check=True)
 try:
